@@ -235,6 +235,7 @@ func init() {
 			fromJSON(plan, &pl)
 			rr := ExecRelay(k, pl)
 			CheckC11(k, rr)
+			checkC11PackRead(k)
 		},
 		Shrink: relayShrink,
 		Shape:  relayShape,
@@ -243,3 +244,81 @@ func init() {
 }
 
 var _ = media.KMeta
+
+// flvSegReader hands out a byte stream in seeded pieces, as a transport does.
+type flvSegReader struct {
+	b []byte
+	r *sim.Rng
+}
+
+func (s *flvSegReader) Read(p []byte) (int, error) {
+	if len(s.b) == 0 {
+		return 0, io.EOF
+	}
+	n := len(p)
+	if n > len(s.b) {
+		n = len(s.b)
+	}
+	if n > 1 {
+		switch s.r.Intn(4) {
+		case 0:
+			n = 1 + s.r.Intn(n)
+		case 1:
+			n = 1 + s.r.Intn(minIntS(n, 8))
+		case 2:
+			// end the read inside the trailing bytes of what was asked for
+			n = n - s.r.Intn(minIntS(n, 5))
+		}
+	}
+	copy(p, s.b[:n])
+	s.b = s.b[n:]
+	return n, nil
+}
+
+// checkC11PackRead: the tag writer and the tag reader of lal's httpflv package against the reference parser, for the
+// payload lengths and timestamps end-to-end streams cannot reach (0, the WebSocket length-form boundaries, 2^24-1) and
+// with the reader fed in arbitrary pieces (short reads of a transport).
+func checkC11PackRead(k *sim.Kernel) {
+	r := sim.NewRng(sim.Mix(k.Seed, 0xc11f))
+	type tg struct {
+		t    uint8
+		ts   uint32
+		data []byte
+	}
+	var tags []tg
+	stream := []byte{'F', 'L', 'V', 1, 5, 0, 0, 0, 9, 0, 0, 0, 0}
+	n := 1 + r.Intn(12)
+	for i := 0; i < n; i++ {
+		size := []int{0, 0, 1, 2, 10, 11, 125, 126, 127, 128, 65535, 65536, 65537, 200 + r.Intn(3000)}[r.Intn(14)]
+		if r.Bool(0.04) {
+			size = 1<<24 - 1 - r.Intn(16)
+		}
+		t := tg{t: []uint8{8, 9, 18}[r.Intn(3)], ts: []uint32{0, 1, 0xFFFFFE, 0xFFFFFF, 0x1000000, 0x1000001, 0x7FFFFFFF, 0xFFFFFFFF, uint32(r.Intn(1 << 30))}[r.Intn(9)], data: randBytes(r.U64(), size)}
+		tags = append(tags, t)
+		stream = append(stream, httpflv.PackHttpflvTag(t.t, t.ts, t.data)...)
+	}
+	var fp httpc.FlvParser
+	got := fp.Feed(stream)
+	if fp.Err != nil {
+		k.Violate("C11.pack", "a stream of %d tags written by PackHttpflvTag is rejected by the reference parser: %v", n, fp.Err)
+	}
+	if len(got) != n || fp.Buffered() != 0 {
+		k.Violate("C11.pack", "PackHttpflvTag wrote %d tags, the reference parser finds %d and %d stray bytes", n, len(got), fp.Buffered())
+	}
+	for i := range got {
+		if got[i].Type != tags[i].t || got[i].Ts != tags[i].ts || !bytes.Equal(got[i].Data, tags[i].data) {
+			k.Violate("C11.pack", "tag #%d (type %d ts %d len %d) written by PackHttpflvTag parses as type %d ts %d len %d", i, tags[i].t, tags[i].ts, len(tags[i].data), got[i].Type, got[i].Ts, len(got[i].Data))
+		}
+	}
+	rd := &flvSegReader{b: stream[13:], r: r}
+	for i := range tags {
+		tag, err := httpflv.ReadTag(rd)
+		if err != nil {
+			k.Violate("C11.readback", "lal's ReadTag fails at tag #%d of %d (len %d) of a well-formed stream delivered in pieces: %v", i, n, len(tags[i].data), err)
+		}
+		if tag.Header.Type != tags[i].t || tag.Header.Timestamp != tags[i].ts || !bytes.Equal(tag.Payload(), tags[i].data) {
+			k.Violate("C11.readback", "lal's ReadTag returns tag #%d as type %d ts %d len %d, it is type %d ts %d len %d (stream delivered in pieces)", i, tag.Header.Type, tag.Header.Timestamp, len(tag.Payload()), tags[i].t, tags[i].ts, len(tags[i].data))
+		}
+	}
+	k.Probe("c11_pack_read_checked")
+}
